@@ -30,7 +30,7 @@ CondClauses(e) ==
      <<"RebuildSucceeds", (ok /\ e.json_ok) => e.outcome_rb = "ok">>,
      <<"RebuiltIsEqual", (ok /\ e.json_ok /\ e.outcome_rb = "ok") => (e.eq /\ e.eq_rev /\ TermSame(e.proj_rb, t))>>,
      <<"RebuiltFiltersIdentically", (ok /\ e.json_ok /\ e.outcome_rb = "ok") => e.behaves_same>>,
-     <<"SerialisationIsFixedPoint", (ok /\ e.json_ok /\ e.outcome_rb = "ok") => (e.js2_ok /\ Same(e.js2, e.js))>> >>
+     <<"SerialisationIsFixedPoint", (ok /\ e.json_ok /\ e.outcome_rb = "ok") => (e.js2_ok /\ SameU(e.js2, e.js))>> >>
 
 PathClauses(e) ==
   LET P == MkPathT(e.rparts, "none", "none")  ok == e.outcome = "ok" IN
@@ -62,6 +62,7 @@ SchemaClauses(e) ==
       r == IF e.js.k = "list" THEN ParseRules(e.js.xs) ELSE [st |-> "err", t |-> <<>>, docs |-> <<>>]
   IN
   << <<"SerialisationSucceeds", ok>>,
+     <<"KeywordFormGivesTheSameJson", ok => e.kw_same>>,
      <<"PureJson", ok => (IsJson(e.js) /\ e.json_ok)>>,
      <<"SerialisedSpecMeansTheSchema", ok => (r.st = "ok" /\ Len(r.t) = Len(o) /\ \A j \in 1..Len(o) : RuleSame(r.t[j], ts[o[j]]))>>,
      <<"RebuildSucceeds", (ok /\ e.json_ok) => e.outcome_rb = "ok">>,
